@@ -65,7 +65,52 @@ theorem stOK_validateIndent (l : L) (ind : GoStr) (r : L × St) (hv : l.validate
         · simp [h1, h2, h3, h4] at hv; subst hv; exact stOK_errorf _ _
         · simp [h1, h2, h3, h4] at hv
 
+theorem fragOK_eq {l l' : L} (h : l'.out = l.out) (hf : FragOK inp l) : FragOK inp l' := by
+  intro t ht; rw [h] at ht; exact hf t ht
+
+theorem fragOK_nil (l : L) (ho : l.out = []) : FragOK inp l := by
+  intro t ht; rw [ho] at ht; cases ht
+
+theorem fragOK_emit (hg : Good inp) (l : L) (t0 : TT) (h : SInv inp l) (hf : FragOK inp l) : FragOK inp (l.emit t0) := by
+  intro t ht hfr
+  rcases emit_mem' hg l t0 h t ht with hin | hat
+  · exact hf t hin hfr
+  · exact hat
+
+theorem fragOK_emitIfPending (hg : Good inp) (l : L) (t0 : TT) (h : SInv inp l) (hf : FragOK inp l) : FragOK inp (emitIfPending l t0) := by
+  unfold emitIfPending
+  split
+  · exact fragOK_emit hg l t0 h hf
+  · exact hf
+
+theorem fragOK_errorf (l : L) (m : EMsg) (hf : FragOK inp l) : FragOK inp (l.errorf m).1 := by
+  intro t ht hfr
+  rcases errorf_mem l m t ht with hin | he
+  · exact hf t hin hfr
+  · rw [he] at hfr; cases hfr
+
+def ssumInv (inp : List Rune) : Sum L L → Prop
+  | .inl l => SInv inp l
+  | .inr l => SInv inp l
+
+theorem sinv_gohtStartLoop (hwf : WF inp) (n : Nat) (l : L) (h : SInv inp l) : ssumInv inp (gohtStartLoop n l) := by
+  induction n generalizing l with
+  | zero => exact h
+  | succ n ih =>
+    simp only [gohtStartLoop]
+    have h1 := sinv_acceptUntil hwf l Gen.lexGohtStart_acceptUntil1 h
+    split
+    · exact h1
+    · have h2 := sinv_next1 hwf _ h1
+      split
+      · exact h2
+      · exact ih _ h2
+
+theorem sinv_indent (l : L) (n : Nat) (h : SInv inp l) : SInv inp { l with indent := n } := h
+
+
 theorem snil_clear_out (l : L) (h : SNil inp l) : SNil inp { l with out := [] } := h
+theorem sinv_clear_out (l : L) (h : SInv inp l) : SInv inp { l with out := [] } := h
 
 theorem nf_app {l : L} (h : NF l) (x : Tok) (hx : x ∈ l.out) : isFrag x.typ = false := h x hx
 
@@ -259,6 +304,81 @@ theorem step_stOK (st : St) (l : L) (h : stOK st = true) : stOK (step st l).2 = 
     | exact k_lexFilterLineStart _ _ (stOK_filter h) l | exact k_lexFilterIndent _ _ (stOK_filter h) l | exact k_lexFilterContent _ _ (stOK_filter h) l
     | exact k_dynamicText _ _ _ (by simpa [stOK] using h) l
 
+theorem frag_goLineStart (hg : Good inp) (l : L) (h : SInv inp l) (ho : l.out = []) : FragOK inp (lexGoLineStart l).1 := by
+  unfold lexGoLineStart
+  simp only []
+  have h1 := sinv_peek hg.wf l h
+  have hf1 : FragOK inp (l.peek).1 := fragOK_eq (peek_out l) (fragOK_nil l ho)
+  repeat' split
+  all_goals first
+    | exact fragOK_emitIfPending hg _ _ h1 hf1
+    | exact hf1
+
+theorem frag_package (hg : Good inp) (l : L) (h : SInv inp l) (ho : l.out = []) : FragOK inp (lexPackage l).1 := by
+  unfold lexPackage
+  simp only []
+  have hf0 : FragOK inp l := fragOK_nil l ho
+  split
+  · exact fragOK_eq (acceptUntil_out _ _) hf0
+  · have h2 := sinv_acceptUntil hg.wf _ Gen.lexPackage_acceptUntil1
+      (snil_sinv _ (snil_skipRun hg.wf _ Gen.lexPackage_skipRun0 (snil_ignore _ (tinv_acceptUntil _ Gen.lexPackage_acceptUntil0 (sinv_tinv l h)))))
+    have hf2 : FragOK inp (((l.acceptUntil Gen.lexPackage_acceptUntil0).ignore.skipRun Gen.lexPackage_skipRun0).acceptUntil Gen.lexPackage_acceptUntil1) :=
+      fragOK_eq (by simp) hf0
+    split
+    · exact fragOK_errorf _ _ hf2
+    · exact fragOK_emit hg _ _ h2 hf2
+
+theorem frag_importStart (hg : Good inp) (l : L) (h : SInv inp l) (ho : l.out = []) : FragOK inp (lexImportStart l).1 := by
+  unfold lexImportStart
+  simp only []
+  have hf0 : FragOK inp l := fragOK_nil l ho
+  split
+  · exact fragOK_eq (acceptUntil_out _ _) hf0
+  · have h1 := snil_peek hg.wf _ (snil_ignore _ (tinv_skipRun _ Gen.lexImportStart_skipRun0 (tinv_acceptUntil _ Gen.lexImportStart_acceptUntil0 (sinv_tinv l h))))
+    split
+    · exact fragOK_eq (by simp) hf0
+    · exact fragOK_eq (skipRun_out _ _) (fragOK_emit hg _ _ (sinv_acceptUntil hg.wf _ _ (snil_sinv _ h1)) (fragOK_eq (by simp) hf0))
+
+theorem frag_imports (hg : Good inp) (l : L) (h : SNil inp l) (ho : l.out = []) : FragOK inp (lexImports l).1 := by
+  unfold lexImports
+  simp only []
+  have hf0 : FragOK inp l := fragOK_nil l ho
+  have h1 := snil_peek hg.wf _ (snil_skipRun hg.wf _ Gen.lexImports_skipRun0 h)
+  have hf1 : FragOK inp ((l.skipRun Gen.lexImports_skipRun0).peek).1 := fragOK_eq (by simp) hf0
+  split
+  · exact fragOK_eq (skipRun_out _ _) hf1
+  · split
+    · exact fragOK_errorf _ _ hf1
+    · have h2 := sinv_acceptUntil hg.wf _ Gen.lexImports_acceptUntil0 (snil_sinv _ h1)
+      have hf2 := fragOK_eq (acceptUntil_out ((l.skipRun Gen.lexImports_skipRun0).peek).1 Gen.lexImports_acceptUntil0) hf1
+      split
+      · exact fragOK_errorf _ _ hf2
+      · exact fragOK_emit hg _ _ h2 hf2
+
+theorem frag_goCode (hg : Good inp) (l : L) (h : SInv inp l) (ho : l.out = []) : FragOK inp (lexGoCode l).1 := by
+  unfold lexGoCode
+  simp only []
+  exact fragOK_emitIfPending hg _ _ (sinv_acceptUntil hg.wf _ _ h) (fragOK_eq (acceptUntil_out _ _) (fragOK_nil l ho))
+
+theorem frag_gohtStart (hg : Good inp) (l : L) (h : TInv inp l) (ho : l.out = []) : FragOK inp (lexGohtStart l).1 := by
+  unfold lexGohtStart
+  have hs : ssumInv inp (gohtStartSig l) := by
+    unfold gohtStartSig; simp only []
+    apply sinv_gohtStartLoop hg.wf
+    have h1 := sinv_acceptUntil hg.wf _ Gen.lexGohtStart_acceptUntil0
+      (snil_sinv _ (snil_skipRun hg.wf _ Gen.lexGohtStart_skipRun0 ((snil_indent_iff _ 0).2 (snil_ignore _ h))))
+    split
+    · exact sinv_next1 hg.wf _ h1
+    · exact h1
+  have ho' : (sumL (gohtStartSig l)).out = [] := by rw [gohtStartSig_out]; exact ho
+  split
+  · rename_i l1 heq; rw [heq] at hs ho'
+    exact fragOK_errorf _ _ (fragOK_nil _ ho')
+  · rename_i l1 heq; rw [heq] at hs ho'
+    simp only []
+    refine fragOK_eq (skipRun_out _ _) (fragOK_eq (skipRun_out _ _) ?_)
+    exact fragOK_emit hg _ _ (sinv_next1 hg.wf _ hs) (fragOK_eq (next_out _) (fragOK_nil _ ho'))
+
 theorem tokAt_of_frag_ne_error {t : Tok} (hf : isFrag t.typ = true) : t.typ ≠ .error := by
   intro h; rw [h] at hf; cases hf
 
@@ -272,7 +392,7 @@ theorem frag_silent' (hg : Good inp) (l : L) (h : SNil inp l) (ho : l.out = []) 
 
 /-- **one state invocation** — whatever fragment tokens it emits are where they say they are -/
 theorem step_frag (hg : Good inp) (st : St) (l : L) (ht : TInv inp l) (hc : cleanSt st = true → SNil inp l)
-    (hs : stOK st = true) (ho : l.out = []) : FragOK inp (step st l).1 := by
+    (hk : contigSt st = true → SInv inp l) (hs : stOK st = true) (ho : l.out = []) : FragOK inp (step st l).1 := by
   have hn := nf_nil l ho
   cases st <;> simp only [step]
   all_goals first
@@ -285,9 +405,11 @@ theorem step_frag (hg : Good inp) (st : St) (l : L) (ht : TInv inp l) (hc : clea
     | exact frag_dynamicText hg _ rfl _ _ l ht ho
     | exact frag_dynamicText hg _ (stOK_filter hs) _ _ l ht ho
     | exact frag_commandCode hg l ht ho
-    | exact fragOK_of_nf _ (n_lexGoLineStart l hn) | exact fragOK_of_nf _ (n_lexGoLineEnd l hn) | exact fragOK_of_nf _ (n_lexPackage l hn)
-    | exact fragOK_of_nf _ (n_lexImportStart l hn) | exact fragOK_of_nf _ (n_lexImports l hn) | exact fragOK_of_nf _ (n_lexGoCode l hn)
-    | exact fragOK_of_nf _ (n_lexTemplate l hn) | exact fragOK_of_nf _ (n_lexGohtStart l hn) | exact fragOK_of_nf _ (n_lexGohtLineStart l hn)
+    | exact frag_goLineStart hg l (hk rfl) ho | exact frag_package hg l (hk rfl) ho | exact frag_importStart hg l (hk rfl) ho
+    | exact frag_imports hg l (hc rfl) ho | exact frag_goCode hg l (hk rfl) ho | exact frag_gohtStart hg l ht ho
+    | exact fragOK_of_nf _ (n_lexGoLineEnd l hn)
+   
+    | exact fragOK_of_nf _ (n_lexTemplate l hn) | exact fragOK_of_nf _ (n_lexGohtLineStart l hn)
     | exact fragOK_of_nf _ (n_lexGohtIndent l hn) | exact fragOK_of_nf _ (n_lexGohtContentStart l hn) | exact fragOK_of_nf _ (n_lexGohtContent l hn)
     | exact fragOK_of_nf _ (n_lexGohtContentEnd l hn) | exact fragOK_of_nf _ (n_lexGohtLineEnd l hn) | exact fragOK_of_nf _ (n_lexGohtNewLine l hn)
     | exact fragOK_of_nf _ (n_hamlIdentifier _ rfl l hn) | exact fragOK_of_nf _ (n_lexGohtAttributesStart l hn) | exact fragOK_of_nf _ (n_lexGohtAttributesEnd l hn)
@@ -300,7 +422,7 @@ theorem step_frag (hg : Good inp) (st : St) (l : L) (ht : TInv inp l) (hc : clea
     | exact fragOK_of_nf _ (n_lexFilterContent _ _ (stOK_filter hs) l hn)
 
 theorem run_frag (hg : Good inp) (n : Nat) (st : St) (l : L) (acc : List Tok) (ht : TInv inp l)
-    (hc : cleanSt st = true → SNil inp l) (hs : stOK st = true)
+    (hc : cleanSt st = true → SNil inp l) (hk : contigSt st = true → SInv inp l) (hs : stOK st = true)
     (hacc : ∀ t ∈ acc, isFrag t.typ = true → TokAt inp t) :
     ∀ t ∈ (run n st l acc).toks, isFrag t.typ = true → TokAt inp t := by
   induction n generalizing st l acc with
@@ -308,7 +430,8 @@ theorem run_frag (hg : Good inp) (n : Nat) (st : St) (l : L) (acc : List Tok) (h
   | succ n ih =>
     have ht0 : TInv inp { l with out := [] } := tinv_clear_out l ht
     have hc0 : cleanSt st = true → SNil inp { l with out := [] } := fun h => snil_clear_out l (hc h)
-    have hstep := step_frag hg st { l with out := [] } ht0 hc0 hs rfl
+    have hk0 : contigSt st = true → SInv inp { l with out := [] } := fun h => sinv_clear_out l (hk h)
+    have hstep := step_frag hg st { l with out := [] } ht0 hc0 hk0 hs rfl
     have hacc' : ∀ t ∈ (step st { l with out := [] }).1.out ++ acc, isFrag t.typ = true → TokAt inp t := by
       intro t hm hf
       rcases List.mem_append.mp hm with h1 | h2
@@ -326,6 +449,6 @@ theorem run_frag (hg : Good inp) (n : Nat) (st : St) (l : L) (acc : List Tok) (h
           · intro t ht'; simp only [List.mem_reverse] at ht'; exact hacc t ht'
           · split
             · intro t ht'; simp only [List.mem_reverse] at ht'; exact hacc' t ht'
-            · exact ih _ _ _ (step_tinv st _ ht0) (step_clean hg.wf st _ ht0 hc0) (step_stOK st _ hs) hacc'
+            · exact ih _ _ _ (step_tinv st _ ht0) (step_clean hg.wf st _ ht0 hc0) (step_contig hg.wf st _ ht0 hc0 hk0) (step_stOK st _ hs) hacc'
 
 end GL
